@@ -335,14 +335,14 @@ SPEC = {
     "SchemaElement": {1: ("type", "i32", False), 2: ("type_length", "i32", False), 3: ("repetition_type", "i32", False),
                       4: ("name", "string", True), 5: ("num_children", "i32", False), 6: ("converted_type", "i32", False),
                       7: ("scale", "i32", False), 8: ("precision", "i32", False), 9: ("field_id", "i32", False),
-                      10: ("logicalType", ("struct", "Opaque"), False)},
+                      10: ("logicalType", ("struct", "LogicalType"), False)},
     "RowGroup": {1: ("columns", ("list", ("struct", "ColumnChunk")), True), 2: ("total_byte_size", "i64", True),
                  3: ("num_rows", "i64", True), 4: ("sorting_columns", ("list", ("struct", "SortingColumn")), False),
                  5: ("file_offset", "i64", False), 6: ("total_compressed_size", "i64", False), 7: ("ordinal", "i16", False)},
     "ColumnChunk": {1: ("file_path", "string", False), 2: ("file_offset", "i64", True), 3: ("meta_data", ("struct", "ColumnMetaData"), False),
                     4: ("offset_index_offset", "i64", False), 5: ("offset_index_length", "i32", False),
                     6: ("column_index_offset", "i64", False), 7: ("column_index_length", "i32", False),
-                    8: ("crypto_metadata", ("struct", "Opaque"), False), 9: ("encrypted_column_metadata", "binary", False)},
+                    8: ("crypto_metadata", ("struct", "ColumnCryptoMetaData"), False), 9: ("encrypted_column_metadata", "binary", False)},
     "ColumnMetaData": {1: ("type", "i32", True), 2: ("encodings", ("list", "i32"), True), 3: ("path_in_schema", ("list", "string"), True),
                        4: ("codec", "i32", True), 5: ("num_values", "i64", True), 6: ("total_uncompressed_size", "i64", True),
                        7: ("total_compressed_size", "i64", True), 8: ("key_value_metadata", ("list", ("struct", "KeyValue")), False),
@@ -369,6 +369,25 @@ SPEC = {
     "ColumnOrder": {1: ("TYPE_ORDER", ("struct", "Opaque"), False)},
     "PageEncodingStats": {1: ("page_type", "i32", True), 2: ("encoding", "i32", True), 3: ("count", "i32", True)},
     "SortingColumn": {1: ("column_idx", "i32", True), 2: ("descending", "bool", True), 3: ("nulls_first", "bool", True)},
+    # LogicalType is a union: one member; the members with parameters have REQUIRED fields (parquet.thrift)
+    "LogicalType": {1: ("STRING", ("struct", "Opaque"), False), 2: ("MAP", ("struct", "Opaque"), False),
+                    3: ("LIST", ("struct", "Opaque"), False), 4: ("ENUM", ("struct", "Opaque"), False),
+                    5: ("DECIMAL", ("struct", "DecimalType"), False), 6: ("DATE", ("struct", "Opaque"), False),
+                    7: ("TIME", ("struct", "TimeType"), False), 8: ("TIMESTAMP", ("struct", "TimestampType"), False),
+                    10: ("INTEGER", ("struct", "IntType"), False), 11: ("UNKNOWN", ("struct", "Opaque"), False),
+                    12: ("JSON", ("struct", "Opaque"), False), 13: ("BSON", ("struct", "Opaque"), False),
+                    14: ("UUID", ("struct", "Opaque"), False), 15: ("FLOAT16", ("struct", "Opaque"), False),
+                    16: ("VARIANT", ("struct", "Opaque"), False), 17: ("GEOMETRY", ("struct", "Opaque"), False),
+                    18: ("GEOGRAPHY", ("struct", "Opaque"), False)},
+    "DecimalType": {1: ("scale", "i32", True), 2: ("precision", "i32", True)},
+    "TimeType": {1: ("isAdjustedToUTC", "bool", True), 2: ("unit", ("struct", "TimeUnit"), True)},
+    "TimestampType": {1: ("isAdjustedToUTC", "bool", True), 2: ("unit", ("struct", "TimeUnit"), True)},
+    "TimeUnit": {1: ("MILLIS", ("struct", "Opaque"), False), 2: ("MICROS", ("struct", "Opaque"), False),
+                 3: ("NANOS", ("struct", "Opaque"), False)},
+    "IntType": {1: ("bitWidth", "i8", True), 2: ("isSigned", "bool", True)},
+    "ColumnCryptoMetaData": {1: ("ENCRYPTION_WITH_FOOTER_KEY", ("struct", "Opaque"), False),
+                             2: ("ENCRYPTION_WITH_COLUMN_KEY", ("struct", "EncryptionWithColumnKey"), False)},
+    "EncryptionWithColumnKey": {1: ("path_in_schema", ("list", "string"), True), 2: ("key_metadata", "binary", False)},
     "Opaque": {},
 }
 _KIND_CT = {"bool": (CT_TRUE, CT_FALSE), "i8": (CT_BYTE,), "i16": (CT_I16,), "i32": (CT_I32,), "i64": (CT_I64,),
@@ -2184,6 +2203,11 @@ def _selftest_validate(rng):
         ("page_crc", flip(ch1.pages[0].body_offset)),
         ("thrift_required_field", rewrite_footer(base, lambda ts: md(ts, 0).remove(4))),
         ("thrift_required_field", rewrite_footer(base, lambda ts: ts.remove(1))),
+        # LogicalType members with required fields: DecimalType without scale, IntType without isSigned
+        ("thrift_required_field", rewrite_footer(base, lambda ts: ts.get(2).items[1].set(10, CT_STRUCT, TStruct([TField(5, CT_STRUCT,
+            TStruct([TField(2, CT_I32, 9)]))])))),
+        ("thrift_required_field", rewrite_footer(base, lambda ts: ts.get(2).items[1].set(10, CT_STRUCT, TStruct([TField(10, CT_STRUCT,
+            TStruct([TField(1, CT_BYTE, 32)]))])))),
         ("thrift_field_type", rewrite_footer(base, lambda ts: ts.set(3, CT_I32, 5))),
         ("page_decode", rewrite_footer(base, lambda ts: md(ts, 0).set(4, CT_I32, 2))),
         ("codec_tag", rewrite_footer(base, lambda ts: md(ts, 0).set(4, CT_I32, 42))),
